@@ -27,6 +27,8 @@ func c13bGen(rt *rapid.T) e4Case {
 		}
 		// the application probes the connection itself (Ping without deadline) the moment the peer goes silent
 		c.Cfg.AppPingOnSilence = rapid.IntRange(0, 2).Draw(rt, "appPing") == 0
+		// steady outbound traffic (QoS0 publishes more often than the ping interval) must not keep the silence undetected
+		c.Cfg.ChatterUs = rapid.SampledFrom([]int{0, 0, 300, 1000}).Draw(rt, "chatterUs")
 	} else {
 		// negative class: every ping is answered; the timeout is far away so that load cannot fake a silence
 		c.Cfg.PingTimeoutMs = 2000
